@@ -6,3 +6,5 @@ pub mod c05;
 pub mod c06;
 #[cfg(kani)]
 pub mod sops;
+#[cfg(all(feature = "verif-native", not(kani)))]
+pub mod xval;
